@@ -895,9 +895,7 @@ class unreach (packet_base, unpack_new_adapter):
     self._init(kw)
 
   def __str__ (self):
-    s = '[unreach]'
-
-    return _str_rest(s, self)
+    return '[unreach]'
 
   def parse (self, raw):
     assert isinstance(raw, bytes)
